@@ -503,3 +503,27 @@ pub fn abs_stored_poly(f: &v1::Function) -> Poly {
     }
     p
 }
+
+/// What the documented skipping of coefficients <= EPSILON *before* substitution may lose in one
+/// partial evaluation: per remaining key, the sum of |c|*prod|x_fixed| over the stored terms whose
+/// own coefficient is <= EPSILON.
+pub fn tiny_terms_partial(f: &v1::Function, x_abs: &BTreeMap<u64, Q>) -> Poly {
+    let mut p = Poly::zero();
+    let e = eps();
+    for (ids, c) in stored_terms(f) {
+        let ca = q(c).abs();
+        if ca.is_zero() || ca > e {
+            continue;
+        }
+        let mut t = ca;
+        let mut rest = vec![];
+        for id in ids {
+            match x_abs.get(&id) {
+                Some(v) => t *= v,
+                None => rest.push(id),
+            }
+        }
+        p.add_term(rest, t);
+    }
+    p
+}
